@@ -238,8 +238,7 @@ def check_value(rep, rule, key, spec, name, writes, tm, b, LEN):
         rep.check(got == want, rule, key + "|value", "writes %s" % got, "part %s is initialised with %s, expected %s" % (name, got, want), t["span"])
 
 
-def run(rep, programs):
-    prog = programs["core"]
+def r_init_coverage(rep, prog):
     rule = "R-INIT-COVERAGE"
     rep.rule(rule, "every table entry and every bitfield is written by free_all / reserve_all on every path, with the value of its region")
     LEN = prog.crate("llfree").const("llfree::bitfield::Bitfield::LEN")
@@ -251,5 +250,10 @@ def run(rep, programs):
         "children.rest": "huge", "children.last.front": "huge", "children.last.back": "free:0",
         "bitfields.front": "bits:0", "bitfields.back": "bits:1",
     })
+
+
+def run(rep, programs):
+    prog = programs["core"]
+    r_init_coverage(rep, prog)
     c05.r_rebuild_order(rep, prog)
     c05.r_init_dispatch(rep, prog)
